@@ -2051,7 +2051,19 @@ void eval_instruction (const char *p) {
               error ("*Class has no corresponding member.");
             sp->type = T_LVALUE;
             sp->u.lvalue = arr->item + i;
-            free_class (arr);
+            /* The instance is normally held by a variable and this was just the stack's
+             * reference.  A temporary (mk()->x = v) would be freed here with the lvalue
+             * pointing into it: keep the last such instance until the next one comes. */
+            if (arr->ref == 1)
+              {
+                static array_t *temporary_owner = 0;
+
+                if (temporary_owner)
+                  free_class (temporary_owner);
+                temporary_owner = arr;
+              }
+            else
+              free_class (arr);
             break;
           }
         case F_INDEX:
